@@ -64,7 +64,19 @@ META = {
                   "int32 / uint8 / mixed numpy scalars, indices beyond 256, config switches given as bool / int / np.bool_, "
                   "coincident vertices, a twin mesh built from equal arguments and spoiled in place, the caller's rows and "
                   "arrays mutated after the build; decorators and non-constant default arguments on anchored callables make "
-                  "the translator fail closed.",
+                  "the translator fail closed. Deliberately NOT constrained by the oracle (the property text is silent; a "
+                  "change there is at most 'unproved' through the model, never a concrete VIOLATION): the class and message of a "
+                  "refusal (whether a refusal is legitimate is decided from the INPUT: from_arrays with an index >= |V| or points "
+                  "wider than 3, face completion off with a cell face not supplied; then any exception is accepted and only 'the "
+                  "caller's arrays are unchanged' is required, while any exception on an input that must be built is a violation "
+                  "whatever its class); warnings, log lines and stderr (the driver's answer is one marked stdout line; the "
+                  "translator drops warnings.warn / print / logging statements); the order of the edge list, of the face list and of "
+                  "a cell's faces inside cell_faces; the third coordinate given to a 2-D point; whether hard_edges exists and "
+                  "whether every declared edge is flagged (only: no undeclared edge is flagged); extra attributes; the "
+                  "representation (sparse/dense, key set, default object) and order of attributes - values are compared as (edge, "
+                  "value) pairs; Vec / float / tuple-ness of vertices and rows in absolute terms (only equality across input "
+                  "containers); which containers a class exposes beyond its name; object identity and aliasing of inputs (recorded "
+                  "for information, C06's subject).",
 }
 
 HEADER = """From Coq Require Import ZArith List Bool.
@@ -107,7 +119,7 @@ def attr_term(a):
 
 def obs_term(o):
     if "err" in o:
-        return "(OErr %s)" % zlit(ERR.get(o["err"], 99))
+        return "(OErr 0%Z)"    # a refusal; its class and message are never compared
     cls = O.CLASSES.index(o["class"]) if o["class"] in O.CLASSES else 99
     at = []
     for a in o["eattrs"]:
